@@ -3,8 +3,8 @@
 
    The snapshot the property talks about is, per configuration: address, identifiers,
    services with ports and properties (the merged per-protocol ones and the per-service-type
-   table config.properties), model, deep-sleep flag.  The device NAME is deliberately not
-   part of it (property text). *)
+   table config.properties), model, deep-sleep flag - plus what a user derives from it: the device name, the main
+   identifier (config.identifier) and the main service (config.main_service()). *)
 From Coq Require Import List Bool Arith NArith.
 From PV Require Import Common.Cases C12.Model C12.DictLemmas.
 Import ListNotations.
@@ -23,7 +23,9 @@ Definition svcs_equiv (l l' : list bsvc) : Prop :=
 Definition config_equiv (c d : config) : Prop :=
   caddr c = caddr d /\ cdeep c = cdeep d /\ cmodel c = cmodel d /\ svcs_equiv (csvcs c) (csvcs d) /\
   (* the per-service-type property table config.properties *)
-  (forall ty, dget str_eqb ty (cprops c) = dget str_eqb ty (cprops d)).
+  (forall ty, dget str_eqb ty (cprops c) = dget str_eqb ty (cprops d)) /\
+  (* derived attributes a user reads: name, main identifier, main service *)
+  cname c = cname d /\ main_identifier c = main_identifier d /\ main_service c = main_service d.
 
 (* same set of configurations *)
 Definition snapshot_equiv (l l' : list config) : Prop :=
@@ -63,7 +65,7 @@ Definition hint_of (lk : lookups) (it : item) : option N := model_hint lk (ity i
    K1  services that map to the same protocol agree on identifier and port and do not
        contradict each other in any property,
    K2  two announcements of the same service type carry the same properties,
-   K3  all announcements come with the same deep-sleep flag and _device-info model,
+   K3  all announcements come with the same deep-sleep flag, _device-info model and device name,
    K4  the model hints of the different service types do not contradict each other. *)
 Definition items_consistent (lk : lookups) (D : list item) : Prop :=
   (forall x y nm b nm' b', In x D -> In y D -> ia x = ia y ->
@@ -72,7 +74,7 @@ Definition items_consistent (lk : lookups) (D : list item) : Prop :=
       (forall k v v', In (k, v) (bprops b) -> In (k, v') (bprops b') -> v = v')) /\
   (forall x y, In x D -> In y D -> ia x = ia y -> ity x = ity y -> iprops x = iprops y) /\
   (forall x y nm b nm' b', In x D -> In y D -> ia x = ia y ->
-      ih x = Some (nm, b) -> ih y = Some (nm', b') -> ideep x = ideep y /\ imodel x = imodel y) /\
+      ih x = Some (nm, b) -> ih y = Some (nm', b') -> ideep x = ideep y /\ imodel x = imodel y /\ nm = nm') /\
   (forall x y m m', In x D -> In y D -> ia x = ia y ->
       hint_of lk x = Some m -> hint_of lk y = Some m' -> m = m').
 
